@@ -107,8 +107,12 @@ def scalar_rules(F, R):
                 st = [(canon(body.expr_of_place(s["l"])), norm(canon(body.expr_of_rvalue(s["r"])), selfty, nat))
                       for bb, i, s in body.assigns() if s["l"]["p"] and s["l"]["v"] == 1]
                 want = [("$self", "<SELF as core::ops::arith::%s>::%s($self, $rhs)" % (optr, opm))]
-                R.ob("D1.delegation", short, "%s::%s" % key, st == want,
-                     "%s: %s::%s stores self %s rhs into *self%s" % (short, tr, meth, opm, "" if st == want else " -- found %s" % st), where=b["span"])
+                # integer + and * are commutative (Add/Mul themselves are pinned to the native operator by their own obligation),
+                # so the operands may come in either order; floats are kept strict (NaN payload propagation is operand-order dependent)
+                swapped = [("$self", "<SELF as core::ops::arith::%s>::%s($rhs, $self)" % (optr, opm))]
+                okst = st == want or (st == swapped and opm in ("add", "mul") and "Int" in short)
+                R.ob("D1.delegation", short, "%s::%s" % key, okst,
+                     "%s: %s::%s stores self %s rhs into *self%s" % (short, tr, meth, opm, "" if okst else " -- found %s" % st), where=b["span"])
                 seen.add(key)
                 continue
             if key not in exp:
